@@ -1518,6 +1518,9 @@ class Models:
 
     m_Arguments__new_v1 = m_Arguments__new_const = m_Arguments__from_str = m_Arguments__new_v1_formatted = m_Arguments__new
 
+    def m_DecodeError__new(self, c, m):
+        return Opaque('DecodeError', m)
+
     def m_Error__msg(self, c, m):
         return Opaque('anyhow', ('msg', m))
 
@@ -1595,6 +1598,8 @@ class Models:
         """IntoIterator::into_iter for a runtime value"""
         if isinstance(v, RIter):
             return v
+        if isinstance(deref(v), Agg) and deref(v).ty == 'ChunkBy':
+            return list_iter(list(deref(v).f[0].items))
         if isinstance(v, Ref):
             t = deref(v)
             if isinstance(t, (RVec, SliceView)):
@@ -1618,7 +1623,15 @@ class Models:
             a, b = v.f[0], v.f[1]
             if not (isinstance(a, int) and isinstance(b, int)):
                 raise Unsupported('symbolic range')
-            return list_iter(list(range(a, b + (1 if v.ty == 'RangeInclusive' else 0))))
+            st = [a]
+            lim = b + (1 if v.ty == 'RangeInclusive' else 0)
+
+            def nxt():
+                if st[0] < lim:
+                    st[0] += 1
+                    return st[0] - 1
+                return DONE
+            return RIter(nxt, kind='range')
         raise Unsupported(f'into_iter on {type(v).__name__} {v!r}')
 
     def m_IntoIterator__into_iter(self, c, v):
@@ -2010,7 +2023,7 @@ class Models:
                 groups[-1][1].append(x)
             else:
                 groups.append((k, [x]))
-        return RVec([Agg([k, list_iter(g)]) for k, g in groups])
+        return Agg([RVec([Agg([k, list_iter(g)]) for k, g in groups])], 'ChunkBy')
 
     m_Itertools__group_by = m_Itertools__chunk_by
 
